@@ -192,3 +192,14 @@ CLAIMED['C29'] = dict(
     note="Trusted: z3, vf/symx.py. max_size 2..4 (quick) / 2..5 (thorough); max_size < 3 with default min_size is outside.",
     technique="symbolic execution of one operation from an arbitrary valid state (symbolic use counters) + z3 per-path queries",
     design_ref="DESIGN.md §3 C29")
+
+CLAIMED['C28'] = dict(
+    level='other',
+    text="Every history of 3 (quick) / 4 (thorough) LocationDB API calls (11 operations incl. strict/non-strict creation, "
+         "forced offsets, removals, get_or_create, merge; 2 names, offsets {0, 0x10}, up to 3 locations) is explored by "
+         "solver-driven enumeration and compared after each call with a relational model: same observable state, "
+         "consistency_check() passes, rejected calls change nothing, creation returns the right location, merge imports every "
+         "association.",
+    note="Trusted: vf/symx.py, z3 (enumeration only: names/offsets are dictionary keys). Conflicting merges are outside.",
+    technique="solver-driven exhaustive enumeration of bounded API histories of the real class against a model",
+    design_ref="DESIGN.md §3 C28")
